@@ -1353,6 +1353,9 @@ func makeTaskForMesosResources(
 			}
 			// TODO: this can be optimized by excluding the base range outside the loop
 			availPorts = availPorts.Remove(mesos.Value_Range{Begin: 0, End: 8999})
+			if len(availPorts) == 0 { // no data port left in this offer: the task does not fit
+				return nil, nil
+			}
 			port := availPorts.Min()
 			builder := resources.Build().
 				Name(resources.Name("ports")).
@@ -1410,6 +1413,9 @@ func makeTaskForMesosResources(
 	// The control port range starts at 47101
 	// FIXME: make the control ports cutoff configurable
 	availPorts = availPorts.Remove(mesos.Value_Range{Begin: 0, End: 29999})
+	if len(availPorts) == 0 { // no control port left in this offer: the task does not fit
+		return nil, nil
+	}
 	controlPort := availPorts.Min()
 	builder := resources.Build().
 		Name(resources.Name("ports")).
